@@ -163,7 +163,7 @@ func (s *legacySim) fail(where string, err error) {
 	// An honest peer's signature that fails verification means the two
 	// sides built different transactions: judged in every arm.
 	var se txscript.Error
-	if errors.As(err, &se) {
+	if errors.As(err, &se) || strings.Contains(err.Error(), "unable to combine final co-op close sig") {
 		r.Fail("sig-mismatch", "%s: the honest peer's closing signature does not verify on the transaction this side built (script engine: %v)", where, err)
 	}
 	s.failed, s.failedAt = err, where
